@@ -122,7 +122,7 @@ def run_history(ctx, rng, script=None):
         for _step in range(n_steps):
             def gen_op():
                 op = rng.choice(['ctor', 'add', 'radd', 'iadd', 'iadd', 'self_iadd', 'join', 'idx', 'slice', 'slice',
-                                 'fixed', 'fmt', 'fmt', 'leaf', 'iadd_inplace', 'add_empty', 'iadd_seq'])
+                                 'fixed', 'fmt', 'fmt', 'leaf', 'iadd_inplace', 'add_empty', 'iadd_seq', 'resize'])
                 a, b = choose(len(pool)), choose(len(pool))
                 rec = [op, a, b]
                 la = len(pool[a][1])
@@ -137,7 +137,7 @@ def run_history(ctx, rng, script=None):
                     bounds = [None] + list(range(-la - 3, la + 4))
                     rec.extend([rng.choice(bounds), rng.choice(bounds),
                                 rng.choice([None, None, None, 1, 2, -1, 3])])
-                elif op == 'fixed':
+                elif op in ('fixed', 'resize'):
                     rec.append(rng.randint(0, la + 3) if rng.random() < 0.7 else la)
                 elif op == 'fmt':
                     fill = rng.choice(['', '', '*', '0', ' ', '<', 'x', '-'])
@@ -284,6 +284,22 @@ def run_history(ctx, rng, script=None):
                     ctx.count("slices")
                     if multi_coloured(ma) and any(x is not None and (x < 0 or x > len(ma)) for x in (lo, hi)):
                         nontrivial = True
+                elif op == 'resize':
+                    # the chunk-list twin of fixed_len (the helper the table code cuts and pads cells with),
+                    # fed with the live chunk list of a text: the text itself must stay what it is
+                    if not isinstance(a, CHText):
+                        continue
+                    n = rec[3]
+                    r = CHText.make(CHText.resize_chunks_list(a.chunks, n))
+                    mr = (ma + [(' ', sgr.DEFAULT)] * n)[:n]
+                    if sgr.cells(str(a)) != ma or len(a) != len(ma) or a != canonical(ma):
+                        fail("helper-modified-the-text-it-was-given", {"op": rec, "shows": a.plain_text()[:60]})
+                    # (make() and the helper are the package's internal route: only what the result SHOWS is
+                    # judged - it may share chunks with its source and keep empty chunks - and it is not kept)
+                    ctx.count("operations_checked")
+                    if sgr.cells(str(r)) != mr or len(r) != len(mr) or r.plain_text() != "".join(c for c, _ in mr):
+                        fail("character-colour-differs", {"op": rec, "text": "".join(c for c, _ in mr)})
+                    continue
                 elif op == 'fixed':
                     if isinstance(a, str):
                         continue
